@@ -3,7 +3,9 @@ package harness
 import (
 	"encoding/base64"
 	"encoding/json"
+	"errors"
 	"fmt"
+	"net/http"
 	"net/url"
 	"os"
 	"path/filepath"
@@ -88,6 +90,50 @@ type c20Scenario struct {
 	Req  func(e *c20Env) httpReq
 }
 
+// A scenario whose name ends in "failwrite" is served to a client that has gone away: every Write of the
+// ResponseWriter fails.  The handler may panic on that (net/http recovers handler panics and carries on);
+// whatever it does, it must not leave a lock behind.
+const c20FailWriteMark = "x-verif/failwrite"
+
+type c20DeadWriter struct {
+	h    http.Header
+	code int
+}
+
+func (w *c20DeadWriter) Header() http.Header { return w.h }
+func (w *c20DeadWriter) WriteHeader(c int) {
+	if w.code == 0 {
+		w.code = c
+	}
+}
+func (w *c20DeadWriter) Write(p []byte) (int, error) {
+	if w.code == 0 {
+		w.code = 200
+	}
+	return 0, errors.New("write tcp: broken pipe (client went away)")
+}
+
+// c20Serve runs one request; the result is the status code (0 when the handler panicked before any).
+func c20Serve(srv http.Handler, q httpReq) int {
+	if q.CType != c20FailWriteMark {
+		return doHTTP(srv, q).Code
+	}
+	r, err := http.NewRequest(q.Method, q.URL, nil)
+	if err != nil {
+		panic(err)
+	}
+	if q.Cookie != "" {
+		r.Header.Set("Cookie", q.Cookie)
+	}
+	r.RemoteAddr = "192.0.2.1:1234"
+	w := &c20DeadWriter{h: http.Header{}}
+	func() {
+		defer func() { recover() }() // as net/http's connection loop does
+		srv.ServeHTTP(w, r)
+	}()
+	return w.code
+}
+
 func c20PostSSOBody(e *c20Env, user, pw string) string {
 	s := saml.ServiceProvider{EntityID: c20SP1, MetadataURL: mustURL(c20SP1), AcsURL: mustURL(c20ACS1), IDPMetadata: e.srv.IDP.Metadata()}
 	req, err := s.MakeAuthenticationRequest(idpSrvRoot+"/sso", saml.HTTPPostBinding, saml.HTTPPostBinding)
@@ -158,6 +204,21 @@ func c20Scenarios() []c20Scenario {
 			return httpReq{Method: "PUT", URL: u("/shortcuts/c2"), Body: `{"service_provider":"` + c20SP1 + `","url_suffix_as_relay_state":true}`}
 		}},
 		{"DELETE /shortcuts/c1", func(e *c20Env) httpReq { return httpReq{Method: "DELETE", URL: u("/shortcuts/c1")} }},
+		{"GET /login nosession failwrite", func(e *c20Env) httpReq {
+			return httpReq{Method: "GET", URL: u("/login"), CType: c20FailWriteMark}
+		}},
+		{"GET /sso nosession failwrite", func(e *c20Env) httpReq {
+			return httpReq{Method: "GET", URL: authnRequestURL(e.srv.IDP.Metadata(), c20SP1, c20ACS1, "rs"), CType: c20FailWriteMark}
+		}},
+		{"GET /login/c1 nosession failwrite", func(e *c20Env) httpReq {
+			return httpReq{Method: "GET", URL: u("/login/c1"), CType: c20FailWriteMark}
+		}},
+		{"GET /metadata failwrite", func(e *c20Env) httpReq {
+			return httpReq{Method: "GET", URL: u("/metadata"), CType: c20FailWriteMark}
+		}},
+		{"GET /sso session failwrite", func(e *c20Env) httpReq {
+			return httpReq{Method: "GET", URL: authnRequestURL(e.srv.IDP.Metadata(), c20SP1, c20ACS1, "rs"), Cookie: e.cookie, CType: c20FailWriteMark}
+		}},
 	}
 }
 
@@ -324,7 +385,7 @@ func c20MineOne(sc c20Scenario) c20Mined {
 			ops = append(ops, c20Op{K: "WE", X: res})
 		}
 	}
-	w := doHTTP(e.srv, q)
+	code := c20Serve(e.srv, q)
 	samlidp.VerifHook = nil
 	resync("")
 	var leaks []string
@@ -334,7 +395,7 @@ func c20MineOne(sc c20Scenario) c20Mined {
 		}
 	}
 	sort.Strings(leaks)
-	return c20Mined{Names: []string{sc.Name}, Ops: ops, Notes: notes, Leaks: leaks, Undiscip: undis, Status: w.Code}
+	return c20Mined{Names: []string{sc.Name}, Ops: ops, Notes: notes, Leaks: leaks, Undiscip: undis, Status: code}
 }
 
 func c20ProgramsPath() string { return filepath.Join(workDir(), "c20_programs.json") }
@@ -347,7 +408,7 @@ func TestC20Mine(t *testing.T) {
 	index := map[string]int{}
 	for _, sc := range c20Scenarios() {
 		m := c20MineOne(sc)
-		if m.Status >= 500 || m.Status == 404 || m.Status == 400 {
+		if (m.Status >= 500 || m.Status == 404 || m.Status == 400) && !strings.HasSuffix(sc.Name, "failwrite") {
 			if !(m.Status == 400 && strings.Contains(sc.Name, "unknown-sp")) {
 				rep.Break("scenario %q answered %d while mining (driver cannot reach the intended state)", sc.Name, m.Status)
 				return
@@ -570,8 +631,7 @@ func c20Replay(cex c20Cex, progs []c20Mined) c20ReplayResult {
 			close(ready)
 			p.arrive <- "start:"
 			<-p.grant
-			w := doHTTP(e.srv, q)
-			p.status = w.Code
+			p.status = c20Serve(e.srv, q)
 			close(p.done)
 		}()
 		<-ready
@@ -891,7 +951,7 @@ func TestC20Race(t *testing.T) {
 			}
 			q := sc.Req(e)
 			wg.Add(1)
-			go func() { defer wg.Done(); doHTTP(e.srv, q) }()
+			go func() { defer wg.Done(); c20Serve(e.srv, q) }()
 		}
 		done := make(chan struct{})
 		go func() { wg.Wait(); close(done) }()
